@@ -40,7 +40,8 @@ pub fn op_alphabet(f: Family, level: u8) -> Vec<Op> {
 }
 
 pub fn contexts(level: u8) -> Vec<(Vec<u8>, Vec<u8>)> {
-	let mut pre: Vec<&str> = vec!["", "s:", "//h", "s://h"];
+	// "//h:" : an authority ending with ':' (empty port)
+	let mut pre: Vec<&str> = vec!["", "s:", "//h", "s://h", "//h:"];
 	if level >= 1 {
 		pre.extend(["//", "s://", "//u@[::1]:8"]);
 	}
